@@ -42,11 +42,23 @@ def main():
     rng = random.Random(spec["prng"])
     cps = set(spec["checkpoints"])
     out = {"mismatches": [], "fillers": 0, "raised": 0}
+    def flat(x):
+        if isinstance(x, (list, tuple)):
+            for y in x:
+                yield from flat(y)
+        else:
+            yield x
+
     for k in range(1, spec["K"] + 1):
+        job = filler(rng, cfg)
         try:
-            run_job(model, filler(rng, cfg))
-        except Exception:  # noqa: BLE001 - totality of single calls is C08's business
+            r = run_job(model, job)
+            if "first_nonfinite" not in out and not all(isinstance(v, (int, float)) and v == v and abs(v) != float("inf") for v in flat(r)):
+                out["first_nonfinite"] = {"after": k, "job": job, "result": repr(r)[:400]}
+        except Exception as e:  # noqa: BLE001 - judged by C08's clause (totality), not by C14's
             out["raised"] += 1
+            if "first_raised" not in out:
+                out["first_raised"] = {"after": k, "job": job, "error": repr(e)[:300]}
         out["fillers"] = k
         if k in cps:
             for idx, j in enumerate(rec):
